@@ -114,6 +114,20 @@ class Deps:
         return root in self.roots_of(expr)
 
 
+def depends_on_call(deps: "Deps", expr, callee_name: str) -> bool:
+    """expr depends (transitively, through local definitions) on a value produced by a call whose callee's last
+    name component is ``callee_name``."""
+    def has(e):
+        return any((A.call_name(c) or "").split(".")[-1] == callee_name for c in A.calls_in(e))
+    if has(expr):
+        return True
+    for nm in deps.roots_of(expr):
+        for d in deps.defs.get(nm, []):
+            if has(d):
+                return True
+    return False
+
+
 # ----------------------------------------------------------------------
 class FlowDeps:
     """Flow-sensitive variant: an environment name -> set(roots) is pushed through the
